@@ -5,7 +5,7 @@
    from cloned generators, reuse of operator values, permuted input declarations).  The theorems
    below are the parts with content. *)
 From Coq Require Import List ZArith Permutation.
-From UEC Require Import Push.Stack Push.Syntax Push.Spec Push.Run Push.InputOrder Ec.Compose.
+From UEC Require Import Push.Stack Push.Syntax Push.Spec Push.Run Push.InputOrder Push.ReadInputs Ec.Compose.
 From UEC Require Import Ec.Locality.
 Import ListNotations.
 
@@ -22,6 +22,20 @@ Theorem C16_input_order : forall prec l l' s,
   run prec (with_inputs l' s) = map_rs (with_inputs l') (run prec s).
 Proof. exact run_input_order. Qed.
 Print Assumptions C16_input_order.
+
+(* a program that reads DISTINCTLY named integer inputs, each once: however many there are and in whatever order
+   they were declared, it ends with exactly their values on the int stack, the last one read on top, the rest of
+   the state as it was (names are told apart by the whole name - the closed form the correspondence compares the
+   evaluation of thousands of inputs with) *)
+Theorem C16_reads_any_declaration_order : forall prec names vs decls s,
+  NoDup names -> length names = length vs ->
+  Permutation (combine names (map LInt vs)) decls -> inputs s = decls ->
+  elems (exec s) = reads names ->
+  (ssize (ints s) + N.of_nat (length names) <= smax (ints s))%N ->
+  (N.of_nat (length names) <= max_steps s)%N ->
+  state_of (run prec s) = Some (after_reads s [] vs).
+Proof. exact reads_any_declaration_order. Qed.
+Print Assumptions C16_reads_any_declaration_order.
 
 (* operators built from the combinators have no hidden state: the threaded state (the random stream)
    after a composition is exactly what its parts left, in order - in particular a part that did not
